@@ -54,6 +54,16 @@ STRENGTHENED = {
     "C01w5-noexpand-never-popped": "C01: a condition that names the same macro twice (C02 and C03 already reported it)",
     "C04w5-literal-include-cached-on-node": "C04: companion platform analysing the same TU first with the search list reversed (C08 already reported it)",
     "C14w5-shared-include-cache-frozenset": "C14: the same header name in two include directories searched in opposite order by two platforms (C04 already reported it)",
+    "C02w6-ternary-third-operand-unconverted": "C02: `?:` with one signed and one unsigned branch and negative operands, alone and under every binary operator (the quick tier's ternary shapes had no unsigned leaf)",
+    "C04w6-repeated-dir-moves-last": "C04: search lists that name a directory twice",
+    "C04w6-cycle-guard": "C04: a header that includes itself, bounded by macros (three levels)",
+    "C08w6-variadic-token-rewritten": "C08: a variadic macro defined in a header that several commands include",
+    "C09w6-common-ancestor-root": "C09: code base made of two directories",
+    "C13w6-file-memo-by-spelling": "C13: the same relative `file` spelling from different directories (two existing files and a missing one)",
+    "C15w6-suffix-before-resolve": "C15 / C09: a link with a source suffix whose target is not a source file",
+    "C11w6-parse-memo-drops-values": "C11: call histories with the same options and other separately given values (C13 already reported it)",
+    "C18w6-computed-include-loses-angle": "C18: missing computed include whose macro expands to the angle form (C04 already reported it)",
+    "C01w6-right-associative": "C01: a condition with two operators of equal precedence (`A - 1 - 1 == 0`; C02 already reported it)",
     "C11-split-fast-path": "C11: backslash-escaped and double-quoted renderings of the command string",
 }
 
